@@ -35,6 +35,8 @@ func VerifC02Atomic() {
 	ta.Insert(w, &vobj{id: []byte("p"), tags: [][]byte{{'t'}}})
 	tb.Insert(w, &vobj{id: []byte("p")})
 	it, _ := ta.Changes(w)
+	doneI0 := ta.RegisterInitializer(w, "i0") // a committed, still pending initializer
+	_ = doneI0
 	w.Commit()
 	seq, _ := it.Next(db.ReadTxn())
 	for range seq {
@@ -48,6 +50,7 @@ func VerifC02Atomic() {
 		o.addSeq(tb.LowerBound(txn, ByRevision[*vobj](0)))
 		o.nums = append(o.nums, uint64(tb.NumObjects(txn)), tb.Revision(txn))
 		o.nums = append(o.nums, uint64(ta.(*genTable[*vobj]).numDeletedObjects(txn)))
+		o.nums = append(o.nums, uint64(len(ta.PendingInitializers(txn))), uint64(len(tb.PendingInitializers(txn))))
 		return o
 	}
 	before := db.ReadTxn()
@@ -96,6 +99,14 @@ func VerifC02Atomic() {
 			ta.Delete(w, &vobj{id: k})
 			tb.Delete(w, &vobj{id: k})
 		}
+	}
+	// optionally the transaction registers another initializer / completes the pending one
+	switch vnd.IntRange("init", 0, 2) {
+	case 1:
+		ta.RegisterInitializer(w, "i1")
+		vnd.Cover("C02.initializer-in-txn")
+	case 2:
+		doneI0(w)
 	}
 	// optionally the transaction also creates a change iterator on B
 	var it2 ChangeIterator[*vobj]
